@@ -232,6 +232,9 @@ func (e *fnEnc) run() (err error) {
 			}
 		}
 		e.obligation("cover", "return-reachable", exitReach, tTrue, "", "", true)
+		if e.ctr.Options["nocheck"] == "" || !strings.Contains(e.ctr.Options["nocheck"], "frame") {
+			e.frameObligations(st, exitReach)
+		}
 		for i, cl := range e.ctr.Get("ensures") {
 			g := e.evalBool(cl.E, env)
 			e.obligationNoAssume("post", clauseLabel(cl, i), exitReach, g, cl.Text, cl.Line)
